@@ -339,6 +339,30 @@ func TestC18(t *testing.T) {
 				return
 			}
 		}
+		// gate 1, field by field: one bit of each header / TD-body field of the genuine quote changed, nothing re-signed
+		// (through the message and through the raw bytes), with a policy that pins the changed value where one can
+		{
+			type fld struct {
+				name     string
+				off, len int
+			}
+			fields := []fld{{"header.qe_svn", 10, 2}, {"header.pce_svn", 8, 2}, {"header.qe_vendor_id", 12, 16}, {"header.user_data", 28, 20},
+				{"tee_tcb_svn", 48, 16}, {"mr_seam", 64, 48}, {"mr_signer_seam", 112, 48}, {"seam_attributes", 160, 8}, {"td_attributes", 168, 8}, {"xfam", 176, 8},
+				{"mr_td", 184, 48}, {"mr_config_id", 232, 48}, {"mr_owner", 280, 48}, {"mr_owner_config", 328, 48}, {"rtmr0", 376, 48}, {"rtmr1", 424, 48}, {"rtmr2", 472, 48}, {"rtmr3", 520, 48}, {"report_data", 568, 64}}
+			for _, f := range fields {
+				raw := append([]byte{}, w.Raw...)
+				raw[f.off+s.Intn(f.len)] ^= byte(1 << uint(s.Intn(8)))
+				pol := func(o *validate.Options) {
+					// the nonce binding would notice a REPORT_DATA change on its own: drop it, the signature gate must hold alone
+					o.TdQuoteBodyOptions.ReportData = nil
+				}
+				st, v := parse(w, raw, nonce, pol, nil)
+				gen.NonTrivial("gate1-field", f.name)
+				if !expectBlocked(t, "verification-fault:unsigned-change-in-"+f.name, "one bit of "+f.name+" changed, not re-signed, no policy on it", st, v) {
+					return
+				}
+			}
+		}
 		// gate 1 under the collateral / revocation levels: controls, and download failures (nothing was verified then)
 		for _, l := range []gen.Level{gen.LvlColl, gen.LvlCRL} {
 			l := l
@@ -370,6 +394,40 @@ func TestC18(t *testing.T) {
 				if !expectBlocked(t, "verification-fault:"+fname, fmt.Sprintf("%s with revocation checking on, body forged=%v", fname, forged), st, v) {
 					return
 				}
+			}
+		}
+		// gate 1 over time: ONE verification options value, first with honest collateral (a state is returned), then the
+		// PCS serves worse news for the same platform (level out of date, leaf revoked, QE level revoked, document
+		// expired): the second call must be blocked — what an earlier call fetched does not count any more
+		for _, f := range gen.CollateralOnlyFaults() {
+			if f.Name == "tcbinfo-wrong-fmspc" {
+				continue
+			}
+			w3 := mkWorld(gen.Seed() + 30)
+			w3.Build()
+			vo := w3.Options(gen.LvlCRL, w3.NewGetter(), nil)
+			st, v := parse(w3, w3.Raw, nonce, nil, func(o *verify.Options) { *o = *vo })
+			if st == nil || !v.Accepted() {
+				gen.Fail(t, gen.Violation{Key: "control-blocked:first-call", Oracle: "control: honest collateral does not block the state", Detail: v.String(), Replay: map[string]any{"kind": "ccel", "class": "control"}})
+				return
+			}
+			twin := w3.CollateralTwin(f)
+			vo.Getter = twin.NewGetter()
+			opts := rtmr.TdxDefaultOpts(nonce)
+			opts.Verification = vo // the very options value the first call used
+			m := w3.Q.ToProto()
+			var st2 any
+			gen.Eval()
+			v2 := gen.Call(func() error {
+				s, err := rtmr.ParseCcelWithTdQuote(ccel, table, m, &opts)
+				if s != nil {
+					st2 = s
+				}
+				return err
+			})
+			gen.NonTrivial("gate1-later", f.Name)
+			if !expectBlocked(t, "verification-fault:later-collateral:"+f.Name, "same options value, second call after the PCS started serving "+f.Name, st2, v2) {
+				return
 			}
 		}
 		// gate 2: each policy field mismatching by one bit, wrong nonce
